@@ -8,6 +8,7 @@ import (
 	"path/filepath"
 	"strings"
 	"time"
+	"unicode/utf8"
 
 	"github.com/spf13/afero"
 )
@@ -18,6 +19,53 @@ type Metadata struct {
 	Size    int64
 	Hash    []byte
 	Meta    map[string]string
+}
+
+// metadataRecord is the stored form of Metadata. A JSON string is UTF-8, but a
+// header value is bytes (HTTP allows any byte above 0x7f in one): stored as a
+// string, such a value would come back with U+FFFD in place of those bytes.
+// Values that are not UTF-8 are therefore kept apart, as bytes.
+type metadataRecord struct {
+	File      string
+	ModTime   time.Time
+	Size      int64
+	Hash      []byte
+	Meta      map[string]string
+	MetaBytes map[string][]byte `json:",omitempty"`
+}
+
+func (m Metadata) MarshalJSON() ([]byte, error) {
+	rec := metadataRecord{File: m.File, ModTime: m.ModTime, Size: m.Size, Hash: m.Hash, Meta: m.Meta}
+	for k, v := range m.Meta {
+		if utf8.ValidString(v) {
+			continue
+		}
+		if rec.MetaBytes == nil {
+			rec.MetaBytes = map[string][]byte{}
+			rec.Meta = make(map[string]string, len(m.Meta))
+			for k2, v2 := range m.Meta {
+				rec.Meta[k2] = v2
+			}
+		}
+		delete(rec.Meta, k)
+		rec.MetaBytes[k] = []byte(v)
+	}
+	return json.Marshal(rec)
+}
+
+func (m *Metadata) UnmarshalJSON(bts []byte) error {
+	var rec metadataRecord
+	if err := json.Unmarshal(bts, &rec); err != nil {
+		return err
+	}
+	*m = Metadata{File: rec.File, ModTime: rec.ModTime, Size: rec.Size, Hash: rec.Hash, Meta: rec.Meta}
+	for k, v := range rec.MetaBytes {
+		if m.Meta == nil {
+			m.Meta = map[string]string{}
+		}
+		m.Meta[k] = string(v)
+	}
+	return nil
 }
 
 type metaPath struct {
